@@ -3,6 +3,8 @@
 package yqlib
 
 import (
+	"bytes"
+	"errors"
 	"io"
 
 	"github.com/goccy/go-json"
@@ -10,14 +12,31 @@ import (
 
 type jsonDecoder struct {
 	decoder json.Decoder
+	reader  *nulRejectingReader
 }
 
 func NewJSONDecoder() Decoder {
 	return &jsonDecoder{}
 }
 
+// the json library uses the NUL byte as its end-of-buffer marker: a NUL in the input would silently end the stream
+type nulRejectingReader struct {
+	reader io.Reader
+	err    error
+}
+
+func (r *nulRejectingReader) Read(p []byte) (int, error) {
+	n, err := r.reader.Read(p)
+	if bytes.IndexByte(p[:n], 0) != -1 {
+		r.err = errors.New("invalid character '\\x00' in JSON input")
+		return 0, r.err
+	}
+	return n, err
+}
+
 func (dec *jsonDecoder) Init(reader io.Reader) error {
-	dec.decoder = *json.NewDecoder(reader)
+	dec.reader = &nulRejectingReader{reader: reader}
+	dec.decoder = *json.NewDecoder(dec.reader)
 	return nil
 }
 
@@ -25,6 +44,10 @@ func (dec *jsonDecoder) Decode() (*CandidateNode, error) {
 
 	var dataBucket CandidateNode
 	err := dec.decoder.Decode(&dataBucket)
+	if dec.reader != nil && dec.reader.err != nil {
+		// the library treats a failed read as the end of the input
+		return nil, dec.reader.err
+	}
 	if err != nil {
 		return nil, err
 	}
